@@ -25,6 +25,8 @@ pub const PROBLEMS: &[(&str, &str, usize)] = &[
     ("mapsize", "m:\n  type: anon map\n  initSize: 1\n  minSize: 0\n  maxSize: 8\n  valueType:\n    type: bool\n    init: false\n", 300),
     ("tiny", "x:\n  type: real\n  init: 0.000000000001\n  scale: 0.000000000001\n", 400),
     ("choice", "c:\n  type: variant\n  init: a\n  a:\n    type: const\n  b:\n    type: enum\n    values: [p, q, r]\n    init: p\n", 200),
+    // the optimum is 1e5 step scales away from the initial value: reached only if the mutation scale adapts upwards
+    ("far", "x:\n  type: real\n  init: 100000.0\n  scale: 1.0\n", 3000),
 ];
 
 pub fn objective(prob: usize, v: &J) -> f64 {
@@ -56,6 +58,10 @@ pub fn objective(prob: usize, v: &J) -> f64 {
         7 => {
             let x = v["x"].as_f64().unwrap() / 1e-12;
             (x - 0.3) * (x - 0.3)
+        }
+        9 => {
+            let x = v["x"].as_f64().unwrap();
+            x * x
         }
         _ => match &v["c"] {
             J::Object(m) => match m.get("b") {
